@@ -23,9 +23,20 @@ type RowFmtPackage struct {
 
 // ReadFrom implements the tds.Package interface.
 func (pkg *RowFmtPackage) ReadFrom(ch BytesChannel) error {
-	totalLength, err := ch.Uint32()
-	if err != nil {
-		return ErrNotEnoughBytes
+	// TDS_ROWFMT carries a 2 byte length, TDS_ROWFMT2 a 4 byte length.
+	var totalLength uint32
+	if pkg.wide {
+		length, err := ch.Uint32()
+		if err != nil {
+			return ErrNotEnoughBytes
+		}
+		totalLength = length
+	} else {
+		length, err := ch.Uint16()
+		if err != nil {
+			return ErrNotEnoughBytes
+		}
+		totalLength = uint32(length)
 	}
 
 	colCount, err := ch.Uint16()
